@@ -90,7 +90,7 @@ def run_property(prop_id, cfg, tier, seed):
             pool.terminate(); pool.join()
         rec = {"harness": h["name"], "params": params, "paths": ex.paths, "path_status": ex.status, "mir_steps": ex.steps, "solver_queries": ex.queries,
                "solver_s": round(ex.solver_time, 2), "unknown_branches": ex.unknown_branches, "checks": ex.checks, "covers_reached": sorted(ex.covers),
-               "exhaustive": ex.exhausted, "wall_s": round(ex.wall, 1), "unsupported": ex.unsupported, "tags": dict(sorted(ex.tags.items())[:60])}
+               "exhaustive": ex.exhausted, "wall_s": round(ex.wall, 1), "checks_decided_with_solver": sorted(ex.nontrivial), "unsupported": ex.unsupported, "tags": dict(sorted(ex.tags.items())[:60])}
         hs.append(rec)
         fn_reached.update(ex.calls)
         total["paths"] += ex.paths; total["steps"] += ex.steps; total["queries"] += ex.queries; total["solver_s"] += ex.solver_time
@@ -190,12 +190,12 @@ def run_property(prop_id, cfg, tier, seed):
     elif inconclusive: exit_code = 2
     for i in inconclusive: print("INCONCLUSIVE: " + i)
     # ---- evidence
-    nontriv = sum(1 for h in hs for cid, c in h["checks"].items() if c.get("proved", 0) + c.get("violated", 0) > 0)
+    nontriv = sum(len(h["checks_decided_with_solver"]) for h in hs)
     ev["violations"] = len(reported)
     ev["coverage"] = {
         "states": max(1, total["paths"]), "transitions": max(1, total["steps"]), "traces_validated_against_impl": validated + sum(1 for k in groups), "passing_witnesses_replayed_natively": validated,
         "evaluations": max(1, total["paths"]), "distinct_nontrivial": max(nontriv, 0),
-        "rule": "one evaluation = one symbolic path of a harness (stands for all inputs satisfying its path condition); distinct_nontrivial = number of distinct (harness, check id) pairs that were decided by a solver query (unsat or sat) on at least one path",
+        "rule": "one evaluation = one symbolic path of a harness (stands for all inputs satisfying its path condition); distinct_nontrivial = number of distinct (harness, check id) pairs that were discharged by a solver query (unsat or sat), or evaluated (concretely true) on a path reached through at least one symbolic branch decision (input, schedule or crash-point variable), on at least one path",
         "obligations": total["checks"], "discharged": total["proved"],
         "checker_cmd": "python3 check.py %s --tier %s" % (prop_id, tier),
         "solver": "cvc5 1.0.3 --strings-exp, one-shot per query, tlimit %d ms" % tl,
